@@ -163,6 +163,15 @@ def plan(prop, tier):
             jobs = [gen_job("c16", "native-debug", 40000, 16, params={"real_every": "4"}, timeout=3000), gen_job("c16", "native-release", 40000, 16, params={"real_every": "4"}, timeout=3000), gen_job("c16", "miri", 300, 8, params={"real_every": "1000000000"}, timeout=2400)]
         return dict(jobs=jobs, level="exploration", rule=rule, floor_cells=["pure:ipv4", "pure:ipv6", "pure:either", "pure:unix-path", "pure:unix-unnamed", "real:unix-path", "real:unix-abstract", "real:unix-unnamed", "real:unix-recv-from", "real:ipv4", "real:accept-peer"],
                     floor_evaluations=5000, assumptions=["the real io_uring of this sandbox (kernel 6.18) is the source of 'the length the kernel reports' for Unix and loopback addresses", "std's getsockname/getpeername views are the independent reference", "addresses that cannot be bound here are covered by the pure model only"], also=[])
+    if prop == "C17":
+        rule = ("scripted inotify record streams delivered through the simulated kernel's READ completions to a real Watcher/Events: 0-13 records per history (name lengths 0, 1, 15-17, 255, random; kernel padding; any mask incl. combined bits and IN_ISDIR; unknown watch descriptors; IN_IGNORED and IN_Q_OVERFLOW records), batched 1-4 whole records per read, ended by an empty read, an error or left pending; "
+                "decoy records beyond the n bytes written (natively; uninitialised under Miri); every &Event handed out is snapshotted and re-read after each later poll and after dropping the iterator; distinct = distinct record streams")
+        if tier == "quick":
+            jobs = [gen_job("c17", "native-debug", 2500, 8)]
+        else:
+            jobs = [gen_job("c17", "native-debug", 60000, 16, timeout=1800), gen_job("c17", "native-release", 60000, 16, timeout=1800), gen_job("c17", "asan", 4000, 16, timeout=1800), gen_job("c17", "miri", 12, 16, timeout=2400)]
+        return dict(jobs=jobs, level="exploration", rule=rule, floor_cells=["record:ignored", "record:overflow", "record:name-255", "record:no-name", "record:unknown-wd", "end:0", "end:1", "end:2", "keep:0", "keep:3", "events_checked"],
+                    floor_evaluations=5000, assumptions=SIMK_ASSUMPTIONS + ["inotify_init1/inotify_add_watch are interposed by the harness (watch descriptors 1,2,3.. per instance like the kernel); record layout follows inotify(7): header 16 bytes, name padded with NULs to a multiple of 16"], also=[])
     return None
 
 
@@ -170,7 +179,7 @@ ENGINES = [
     dict(name="baton-scheduler", path="/verif/harness/src/sched.rs, src/props/mt.rs", serves_properties=["C04", "C08", "C11"], kind_free_text="runtime monitoring: real threads, one running at a time, seeded scheduler switching at the cfg(a10_verif) hook points; reproducible schedules"),
     dict(name="real-kernel", path="/verif/harness/src/props/real.rs, c16.rs", serves_properties=["C16"], kind_free_text="a10 on the real io_uring of the sandbox next to std/libc calls on the same descriptors (differential oracle)"),
     dict(name="pure-sweep", path="/verif/harness/src/props/c14.rs", serves_properties=["C14"], kind_free_text="differential sweep of pure functions against a reference model, natively and under Miri"),
-    dict(name="simk-explorer", path="/verif/harness (scenarios c01..c09 on src/simk, src/world.rs, src/props/generic.rs)", serves_properties=["C01", "C02", "C03", "C05", "C06", "C07", "C09", "C10", "C12", "C15", "C18"], kind_free_text="runtime monitoring: real a10 driven single-threaded against an in-process simulated io_uring kernel with adversarial completion timing; boundary oracles (allocator monitor, waker ledger, descriptor ledger, request log)"),
+    dict(name="simk-explorer", path="/verif/harness (scenarios c01..c09 on src/simk, src/world.rs, src/props/generic.rs)", serves_properties=["C01", "C02", "C03", "C05", "C06", "C07", "C09", "C10", "C12", "C15", "C17", "C18"], kind_free_text="runtime monitoring: real a10 driven single-threaded against an in-process simulated io_uring kernel with adversarial completion timing; boundary oracles (allocator monitor, waker ledger, descriptor ledger, request log)"),
 ]
 
 _NOTE = "trusted base: simk's model of the io_uring kernel (independent ABI table, DESIGN.md 2.2), the five a10_verif hook points, the harness monitors; judged only on the histories generated for the given VERIF_SEED"
@@ -223,6 +232,9 @@ CLAIMS = {
     "C16": dict(level="exploration", engine="real-kernel differential + pure sweep", design_ref="DESIGN.md 4 C16", note="trusted base: the real kernel of the sandbox and std's socket address accessors as reference; the pure model of kernel-reported lengths for addresses that cannot be bound",
                 technique="differential testing against the real kernel (std getsockname as independent oracle) plus a pure storage->bytes->init sweep with garbage beyond the reported length",
                 text="Every supported address type is converted to its kernel representation and back using the length the kernel reports; for Unix addresses of every path length, abstract names and unnamed sockets the kernel of the sandbox is asked directly (bind through a10, read back through a10 and through std), for IP addresses the full value space is swept purely and loopback addresses are bound for real."),
+    "C17": dict(level="exploration", engine="simk-explorer", design_ref="DESIGN.md 4 C17", note=_NOTE,
+                technique="scripted trace specification: the yielded event sequence is compared with the user-visible records of the scripted stream; decoy records / uninitialised memory beyond the bytes written; snapshots of every handed-out reference",
+                text="The decoder is driven with arbitrary well-formed record streams in arbitrary batchings and must yield exactly the user-visible records in order with mask, unpadded name and path_for, forget watches on IN_IGNORED, skip overflow markers and never look beyond the bytes the kernel wrote (a decoy record there would be yielded; under Miri the bytes are uninitialised). References handed out are re-read after later polls and after dropping the iterator: the unchanged tree has the known findings D6."),
     "C09": dict(level="exploration", engine="simk-explorer", design_ref="DESIGN.md 4 C09", note=_NOTE,
                 technique="fault injection of EINTR/ECANCELED completions with byte-for-byte comparison of re-issued submissions",
                 text="More than half of all completions in this scenario are EINTR/ECANCELED; the caller must never observe them, every re-issued submission must be byte-identical (opcode, fd, flags, offsets, addresses, lengths, user_data) to the first, failed attempts scribble the buffers so mixed data would show, and the value must be the last attempt's."),
